@@ -18,7 +18,7 @@ use shared::dataset_index::{GraphId, Quad};
 use shared::quoted_triple_store::is_quoted_triple_id;
 use std::collections::{BTreeMap, BTreeSet, HashMap};
 
-const RULE: &str = "Phases: (tokens) every token of a 100-entry hostile alphabet x 4 placements (alone, leading, inner, trailing) x 5 term positions (object literal in the default graph / in a named graph, literal inside a quoted triple used as object / as subject / nested twice) x 3 formats, exhaustively; (iris) every character class legal in an IRI x 5 positions x 3 formats, exhaustively; (pairs) ordered pairs of tokens as one object literal x 3 formats (exhaustive in the thorough tier, sampled in quick); (random) random datasets of 1-10 quads with repeated subjects/predicates, IRIs of many schemes, blank nodes in subject/object/graph position, quoted triples up to depth 3, named graphs, literals concatenated from 0-6 hostile tokens, x 3 formats, plus every quad on its own when the dataset fails; (prefixes) the same with a prefix table on the database (Turtle emits it); (big) 1001-2600 quad datasets (N-Triples reader chunking) with benign literals. Every literal is filtered so that neither it nor its trimmed form looks like an absolute IRI (scheme ':'), a blank node ('_:') or a quoted triple ('<<'). Non-trivial = the dataset holds a literal with a non-alphanumeric character (or the empty literal), a blank node or a quoted triple and the export was re-imported; distinct by hash of (dataset, prefix table).";
+const RULE: &str = "Phases: (tokens) every token of a 107-entry hostile alphabet x 4 placements (alone, leading, inner, trailing) x 5 term positions (object literal in the default graph / in a named graph, literal inside a quoted triple used as object / as subject / nested twice) x 3 formats, exhaustively; (iris) every character class legal in an IRI x 5 positions x 3 formats, exhaustively; (pairs) ordered pairs of tokens as one object literal x 3 formats (exhaustive in the thorough tier, sampled in quick); (random) random datasets of 1-10 quads with repeated subjects/predicates, IRIs of many schemes, blank nodes in subject/object/graph position, quoted triples up to depth 3, named graphs, literals concatenated from 0-6 hostile tokens, x 3 formats, plus every quad on its own when the dataset fails; (prefixes) the same with a prefix table on the database (Turtle emits it); (big) 1001-2600 quad datasets (N-Triples reader chunking) with benign literals. Every literal is filtered so that neither it nor its trimmed form looks like an absolute IRI (scheme ':'), a blank node ('_:') or a quoted triple ('<<'). Non-trivial = the dataset holds a literal with a non-alphanumeric character (or the empty literal), a blank node or a quoted triple and the export was re-imported; distinct by hash of (dataset, prefix table).";
 
 // ---------------------------------------------------------------------------------------
 // model terms (typed, so the quantifier can be checked) and their untyped image
@@ -709,10 +709,12 @@ fn fault_side(c: &Case, f: F) -> (String, Value, bool) {
             }
         }
     };
+    // a wrong export is reported as such whether or not the reader has a defect of its own
+    // for the same content (that defect shows, as an import fault, in the formats whose
+    // export is right, and in the attribution detail here)
     let side = match (export_ok, import_ok) {
-        (false, true) => "export",
+        (false, _) => "export",
         (true, false) => "import",
-        (false, false) => "export_and_import",
         (true, true) => "only_in_combination",
     };
     (side.to_string(), json!({"export": export_note, "import": import_note, "reference_serialisation": rtext}), export_valid)
@@ -766,6 +768,8 @@ const TOKENS: &[(&str, &str)] = &[
     ("ann_open", "{|"),
     ("ann_close", "|}"),
     ("annotation", "{| x y |}"),
+    ("ann_empty", "{||}"),
+    ("ann_reversed", "|}{|"),
     ("squote", "'"),
     ("triple_squote", "'''"),
     ("triple_dquote", "\"\"\""),
@@ -1316,6 +1320,40 @@ impl<'a> Reducer<'a> {
                     }
                 }
             }
+            // one occurrence at a time: subject / object of a quad replaced by a plain term
+            for i in 0..cur.quads.len() {
+                for which in 0..2 {
+                    let t = if which == 0 { cur.quads[i].s.clone() } else { cur.quads[i].o.clone() };
+                    let plain = match &t {
+                        T::Iri(x) => is_plain_iri(x),
+                        T::Lit(x) => is_plain_lit(x),
+                        _ => false,
+                    };
+                    if plain {
+                        continue;
+                    }
+                    let mut cands = vec![];
+                    if which == 1 && matches!(t, T::Lit(_)) {
+                        cands.push(T::Lit("a".into()));
+                    }
+                    cands.push(fresh_iri(&cur));
+                    for nt in cands {
+                        let mut cand = cur.clone();
+                        if which == 0 {
+                            cand.quads[i].s = nt;
+                        } else {
+                            cand.quads[i].o = nt;
+                        }
+                        cand.quads.sort();
+                        cand.quads.dedup();
+                        if cand.quads.len() == cur.quads.len() && self.fails(&cand) {
+                            cur = cand;
+                            changed = true;
+                            break;
+                        }
+                    }
+                }
+            }
             // quoted triples: replace by a plain IRI, or hoist an inner quoted triple
             for t in terms_of(&cur) {
                 if let T::Q(b) = &t {
@@ -1444,7 +1482,7 @@ fn classes(s: &str) -> String {
     if s.is_empty() {
         return "empty".into();
     }
-    let set = pairs_of(s);
+    let set: BTreeSet<String> = s.chars().filter_map(char_class).collect();
     if set.is_empty() {
         "alnum".into()
     } else {
@@ -1547,6 +1585,18 @@ fn report_one(ctx: &mut Ctx, c: &Case, f: F, first: &Res, origin: &str, backward
     let res = roundtrip(&small, f, None);
     let (side, side_detail, export_valid) = fault_side(&small, f);
     ctx.add_evals(2);
+    // does the failure need the hostile characters at an end of the literal?  Pad the
+    // literal with a letter on both sides and look again.
+    let padded = map_case(&small, &|t| match t {
+        T::Lit(x) if !is_plain_lit(x) => Some(T::Lit(format!("a{}a", x))),
+        _ => None,
+    });
+    if padded != small {
+        ctx.add_evals(1);
+        let anywhere = valid_case(&padded) && roundtrip(&padded, f, None).mode() == res.mode();
+        let tag = if anywhere { ";anywhere_in_the_literal]" } else { ";only_at_an_end_of_the_literal]" };
+        feats = feats.into_iter().map(|x| if x.starts_with("literal[") { x.replacen("]", tag, 1) } else { x }).collect();
+    }
     if !export_valid {
         // the export does not even follow the grammar: for literals inside a quoted triple
         // (written bare, without quotes) every delimiter character is a trigger of the same
@@ -1558,6 +1608,10 @@ fn report_one(ctx: &mut Ctx, c: &Case, f: F, first: &Res, origin: &str, backward
             } else if x != "quoted_triple@inside_quoted_triple" {
                 merged.insert(x);
             }
+        }
+        if merged.contains("hostile_literal@inside_quoted_triple_exported_without_delimiters") {
+            // what else surrounds the quoted triple only decides how the damage shows
+            merged.retain(|x| x != "named_graph" && x != "quoted_triple");
         }
         feats = merged.into_iter().collect();
     }
@@ -1868,10 +1922,32 @@ fn run(ctx: &mut Ctx) {
         }
     }
 
+    // ---- big datasets -------------------------------------------------------------------
+    ctx.phase("big", ctx.by_tier(16, 160));
+    while let Some(k) = ctx.next_case() {
+        let mut r = ctx.rng(k);
+        let n = [1001, 1200, 1999, 2000, 2001, 2600][r.below(6)];
+        let c = gen_case(&mut r, n, false, true);
+        if !valid_case(&c) {
+            ctx.inconclusive("generator produced a case outside the quantifier");
+            continue;
+        }
+        observe_terms(ctx, &c);
+        ctx.nontrivial(case_hash(&c));
+        for f in FORMATS {
+            let mut order = ctx.rng_labeled("order", k);
+            let res = observed_roundtrip(ctx, &c, f, Some(&mut order));
+            if res.mode().is_some() {
+                report_one(ctx, &c, f, &res, &format!("big:{}", k), false);
+            } else {
+                ctx.count(&format!("big_datasets_reproduced.{}", f.name()), 1);
+            }
+        }
+    }
     // ---- pairs --------------------------------------------------------------------------
     let all_pairs = nt * nt * 3;
     let thorough = ctx.thorough();
-    ctx.phase("pairs", if thorough { all_pairs } else { 4_000 });
+    ctx.phase("pairs", if thorough { all_pairs } else { 9_000 });
     while let Some(k) = ctx.next_case() {
         let (f, i, j) = if thorough {
             (FORMATS[(k % 3) as usize], ((k / 3) % nt) as usize, (k / 3 / nt) as usize)
@@ -1896,7 +1972,7 @@ fn run(ctx: &mut Ctx) {
     }
 
     // ---- random datasets ----------------------------------------------------------------
-    for (phase, total, with_prefixes) in [("random", ctx.by_tier(1_600u64, 200_000), false), ("prefixes", ctx.by_tier(400u64, 30_000), true)] {
+    for (phase, total, with_prefixes) in [("prefixes", ctx.by_tier(1_500u64, 30_000), true), ("random", ctx.by_tier(6_000u64, 200_000), false)] {
         ctx.phase(phase, total);
         while let Some(k) = ctx.next_case() {
             let mut r = ctx.rng(k);
@@ -1928,28 +2004,6 @@ fn run(ctx: &mut Ctx) {
         }
     }
 
-    // ---- big datasets -------------------------------------------------------------------
-    ctx.phase("big", ctx.by_tier(8, 160));
-    while let Some(k) = ctx.next_case() {
-        let mut r = ctx.rng(k);
-        let n = [1001, 1200, 1999, 2000, 2001, 2600][r.below(6)];
-        let c = gen_case(&mut r, n, false, true);
-        if !valid_case(&c) {
-            ctx.inconclusive("generator produced a case outside the quantifier");
-            continue;
-        }
-        observe_terms(ctx, &c);
-        ctx.nontrivial(case_hash(&c));
-        for f in FORMATS {
-            let mut order = ctx.rng_labeled("order", k);
-            let res = observed_roundtrip(ctx, &c, f, Some(&mut order));
-            if res.mode().is_some() {
-                report(ctx, &c, f, &res, &format!("big:{}", k));
-            } else {
-                ctx.count(&format!("big_datasets_reproduced.{}", f.name()), 1);
-            }
-        }
-    }
 }
 
 /// number of violating observations so far (through the public counter interface only)
@@ -1970,7 +2024,7 @@ fn main() {
         "N-Quads cannot carry an empty named graph: only quads are compared, not the named-graph catalog",
         "The prefix table of the source database is part of the input for the 'prefixes' phase (generate_turtle emits it); prefix names there include the empty name, names that are also legal IRI schemes and names that are not",
     ];
-    spec.quick_budget_s = 45;
-    spec.thorough_budget_s = 700;
+    spec.quick_budget_s = 90;
+    spec.thorough_budget_s = 800;
     kvcore::run(spec, run);
 }
